@@ -191,7 +191,7 @@ func (f *flow) symbolicAccount(i int, pid string) *acct {
 		u.OAuth2Provider, u.OAuth2UID = "prov", "u" // account 1 is an OAuth2 user (consistent with its pid)
 	}
 	a.hasPw = verif.Bool("hasPw" + n)
-	a.pw = verif.String("pw"+n, 3)
+	a.pw = verif.String("pw"+n, verif.Bound(3, 5))
 	u.Password = verif.Ite(a.hasPw, world.MakeHash(a.pw, "saltsal"+n), "")
 	u.Confirmed = verif.Bool("confirmed" + n)
 	u.Locked = verif.Time("locked" + n)
@@ -201,7 +201,7 @@ func (f *flow) symbolicAccount(i int, pid string) *acct {
 	nOTP := 2 - i
 	var hs []string
 	for k := 0; k < nOTP; k++ {
-		p := verif.String("otp"+n+"_"+idx(k), 3)
+		p := verif.String("otp"+n+"_"+idx(k), verif.Bound(3, 5))
 		a.otps = append(a.otps, p)
 		hs = append(hs, hashOTP(p))
 	}
@@ -212,7 +212,7 @@ func (f *flow) symbolicAccount(i int, pid string) *acct {
 	// recovery codes: two on account 0, one on account 1
 	var cs []string
 	for k := 0; k < nOTP; k++ {
-		p := verif.String("rcode"+n+"_"+idx(k), 3)
+		p := verif.String("rcode"+n+"_"+idx(k), verif.Bound(3, 5))
 		verif.Assume(verif.And(p != "", !strings.Contains(p, ","))) // generated codes are non-empty and comma-free
 		a.codes = append(a.codes, p)
 		cs = append(cs, stubs.BcMake(p, "bcsalt"+n+idx(k)))
@@ -299,6 +299,29 @@ func (f *flow) symbolicSession() {
 	f.w.Cookies.SetP(authboss.CookieRemember, verif.String("K_rm", 8), verif.Bool("has_rm"))
 }
 
+// thoroughAxes widens a flow harness in the thorough tier: up to one failing backend call
+// (storage, hasher, responder, redirector, mailer, SMS sender) and an application hook after
+// EventAuth that does nothing, answers the request itself, or fails. The oracles of the entries
+// that call it are statements about what must never happen, so they hold under both.
+func (f *flow) thoroughAxes() {
+	if !verif.Thorough() {
+		return
+	}
+	if verif.Choice("thorough-fault", 2) == 1 {
+		f.injectFaults(&faultPlan{max: 1})
+	}
+	hook := verif.Choice("thorough-app-hook", 3)
+	if hook != 0 {
+		f.w.AB.Events.After(authboss.EventAuth, func(wr http.ResponseWriter, r *http.Request, handled bool) (bool, error) {
+			if hook == 1 {
+				wr.WriteHeader(200) // the application answers the login itself
+				return true, nil
+			}
+			return false, world.ErrInjected
+		})
+	}
+}
+
 func (f *flow) sval(k string) string { v, _ := f.w.Session.Lookup2(k); return v }
 
 func (f *flow) svalPre(k string) string { v, _ := f.preS.Lookup2(k); return v }
@@ -317,11 +340,11 @@ func (f *flow) account(pid string) *acct {
 func symbolicValues() *world.Values {
 	return &world.Values{
 		PID:          verif.String("v_pid", pidLen),
-		Password:     verif.String("v_password", 3),
-		Token:        verif.String("v_token", 8),
+		Password:     verif.String("v_password", verif.Bound(3, 5)),
+		Token:        verif.String("v_token", verif.Bound(8, 12)),
 		Code:         verif.String("v_code", 6),
-		RecoveryCode: verif.String("v_rcode", 3),
-		PhoneNumber:  verif.String("v_phone", 5),
+		RecoveryCode: verif.String("v_rcode", verif.Bound(3, 5)),
+		PhoneNumber:  verif.String("v_phone", verif.Bound(5, 7)),
 		Remember:     verif.Bool("v_remember"),
 		Invalid:      verif.Bool("v_invalid"),
 	}
@@ -376,11 +399,11 @@ type valuesAlias struct{}
 func symbolicValues2() *world.Values {
 	return &world.Values{
 		PID:          verif.String("v2_pid", pidLen),
-		Password:     verif.String("v2_password", 3),
-		Token:        verif.String("v2_token", 8),
+		Password:     verif.String("v2_password", verif.Bound(3, 5)),
+		Token:        verif.String("v2_token", verif.Bound(8, 12)),
 		Code:         verif.String("v2_code", 6),
-		RecoveryCode: verif.String("v2_rcode", 3),
-		PhoneNumber:  verif.String("v2_phone", 5),
+		RecoveryCode: verif.String("v2_rcode", verif.Bound(3, 5)),
+		PhoneNumber:  verif.String("v2_phone", verif.Bound(5, 7)),
 		Remember:     verif.Bool("v2_remember"),
 		Invalid:      verif.Bool("v2_invalid"),
 	}
